@@ -679,9 +679,22 @@ def evalf(t, env, cache=None):
                 r = math.exp(a[0]) if a[0] < 700 else float("inf")
             elif nm == "sqrt":
                 r = math.sqrt(a[0]) if a[0] >= 0 else float("nan")
+            elif nm.startswith("inv") and "_" in nm:
+                n = int(nm[3 : nm.index("_")])
+                i, j = int(nm[-2]), int(nm[-1])
+                r = float(_np.linalg.inv(_np.array(a, dtype=float).reshape(n, n))[i, j])
+            elif nm.startswith("chol") and "_" in nm:
+                n = int(nm[4 : nm.index("_")])
+                i, j = int(nm[-2]), int(nm[-1])
+                A = _np.zeros((n, n))
+                it = iter(a)
+                for ii in range(n):
+                    for jj in range(ii + 1):
+                        A[ii, jj] = A[jj, ii] = next(it)
+                r = float(_np.linalg.cholesky(A)[i, j])
             else:
                 raise Unsupported("evalf: %s" % e.decl())
-        except (OverflowError, ValueError):
+        except (OverflowError, ValueError, _np.linalg.LinAlgError):
             r = float("nan")
         cache[k] = r
     return cache[t.get_id()]
